@@ -62,6 +62,7 @@ pub proof fn lemma_enc_batches_one(m: FrameBatch)
        ("C03+C04+C07:dec_step", "dec_step(old(network_buffer)@, old(self).parser.max_msg_size, match r { Ok(None) => 0int, Ok(Some(_)) => 1int, Err(_) => 2int }, "
                                 "match r { Ok(Some(m)) => frame_of(m), _ => first_frame(old(network_buffer)@) }, final(network_buffer)@)"),
        ("C03:state_frame", "final(self).parser.state is ReadHeader && final(self).parser.max_msg_size == old(self).parser.max_msg_size"),
+       ("C04:consumes_from_the_front_of_the_buffer_only", "final(network_buffer).stream() =~= old(network_buffer).stream()"),
      ]),
   Fn(FR, "write_msg_multipart", impl=NULL, emit_impl="impl NullFramer",
      requires=["wire_all(msgs@) <= usize::MAX"],
@@ -120,6 +121,7 @@ pub proof fn lemma_enc_batches_one(m: FrameBatch)
         "exists|n: nat| #[trigger] n_ok(old(network_buffer)@, n) && final(network_buffer)@ == old(network_buffer)@.skip(consumed(old(network_buffer)@, n) as int) "
         "&& final(self).cipher.dec_inputs() == old(self).cipher.dec_inputs() + bodies(old(network_buffer)@, n)"),
        ("C18+C04:none_means_no_complete_record_left", "r matches Ok(None) ==> !rec_complete(final(network_buffer)@)"),
+       ("C04:consumes_from_the_front_of_the_buffer_only", "final(network_buffer).stream() =~= old(network_buffer).stream()"),
        ("C18:state_frame", "final(self).parser.state is ReadHeader && final(self).parser.max_msg_size == old(self).parser.max_msg_size"),
      ],
      extra=[("R8", "network_buffer.as_ref().get_u16()", "verif_peek_u16(network_buffer)", 1),
@@ -128,6 +130,7 @@ pub proof fn lemma_enc_batches_one(m: FrameBatch)
      loops={0: {
        "invariant": [
          "self.parser.state is ReadHeader", "self.parser.max_msg_size == old(self).parser.max_msg_size",
+         ("C04:loop_stream", "network_buffer.stream() =~= old(network_buffer).stream()"),
          ("C18:loop_records", "n_ok(old(network_buffer)@, vn) && consumed(old(network_buffer)@, vn) <= old(network_buffer)@.len() "
                               "&& network_buffer@ == old(network_buffer)@.skip(consumed(old(network_buffer)@, vn) as int) "
                               "&& self.cipher.dec_inputs() == old(self).cipher.dec_inputs() + bodies(old(network_buffer)@, vn)"),
